@@ -127,6 +127,20 @@ def yaml_key(name):
     return "'%s'" % name.replace("'", "''")
 
 
+def render_uq(rmse, basis, mat, dof=10):
+    """UQ block: RMSE correlation (non-dimensional keys), basis order and matrix as given"""
+    out = ['UQ:', '    RMSE:', "        'thermochem':"]
+    for l in render_group(rmse, dict(H=('nd',), S=('nd',), Cp=('nd',), T=('explicit', 'K'))):
+        out.append('            ' + l)
+    out.append('    DOF:')
+    out.append('        %d' % dof)
+    out.append('    InvCovMat:')
+    out.append("        'groups': [%s]" % ', '.join(yaml_key(b) for b in basis))
+    out.append("        'mat':")
+    out.append('           [' + ',\n            '.join('[' + ','.join(repr(float(x)) for x in row) + ']' for row in mat) + ']')
+    return '\n'.join(out) + '\n'
+
+
 def render_file(groups, pres_of, units_block=None, include=(), other=None):
     """groups: {name: abstract data}; pres_of(name) -> pres"""
     out = []
